@@ -102,6 +102,10 @@ def resets (s : S) (x : Nat) : Bool := (s.chain x).all (fun y => !s.unlinked y)
 
 def answer (s : S) (a : Ans) : S := { s with answered := (s.nextReq, a) :: s.answered, nextReq := s.nextReq + 1 }
 
+/-- `Use(0)`: answered nil before anything is looked at (logged as a grant of 0) -/
+def doUseZero (s : S) (l : Nat) : S :=
+  { s with glog := ⟨s.nextReq, l, s.chain l, 0, s.ticks⟩ :: s.glog,
+           answered := (s.nextReq, .ok) :: s.answered, nextReq := s.nextReq + 1 }
 /-- `Use`: lock held, limiter open, amount within its own cap, room along the whole chain -/
 def doUseGrant (s : S) (l amt : Nat) : S :=
   { s with used := charge s.used (s.chain l) amt,
@@ -137,7 +141,7 @@ def doSetCap (s : S) (l c : Nat) : S := { s with cap := upd s.cap l c }
 inductive Step : S → S → Prop
   -- `Use(amount)`: the two answers given before the lock is taken …
   | useNeg (s : S) : Step s (answer s .errNeg)
-  | useZero (s : S) : Step s (answer s .ok)
+  | useZero (s : S) (l : Nat) (hl : l < s.n) : Step s (doUseZero s l)
   -- … and the four outcomes under the lock
   | useClosed (s : S) (l : Nat) (hl : l < s.n) (h0 : s.lockHeld = false) (h : s.closed l = true) :
       Step s (answer s .errClosed)
@@ -191,7 +195,7 @@ def exec (s : S) : Op → S
   | .use l amt =>
     if l < s.n then
       if amt < 0 then answer s .errNeg
-      else if amt = 0 then answer s .ok
+      else if amt = 0 then doUseZero s l
       else if s.lockHeld then s
       else if s.closed l then answer s .errClosed
       else if amt.toNat > s.cap l then answer s .errCap
@@ -218,7 +222,7 @@ theorem exec_steps (s : S) (op : Op) (h : ∀ l c, op ≠ .setCap l c) : Steps s
       split
       · exact .tail _ _ _ (.refl _) (.useNeg s)
       · split
-        · exact .tail _ _ _ (.refl _) (.useZero s)
+        · exact .tail _ _ _ (.refl _) (.useZero s l hl)
         · rename_i hn hz
           have hpos : 0 < amt.toNat := by omega
           split
